@@ -77,6 +77,8 @@ def gen_frame(rng, st, tscale=None):
     """membrane position and time"""
     xd0 = uni(rng, -3, 3)
     t = logu(rng, 0.02, 2.0)
+    if rng.random() < 0.15:
+        xd0 = 0.0                     # a membrane exactly at the origin is the most common choice of all
     return xd0, t
 
 
@@ -103,7 +105,8 @@ def make_solver(ctx, which, st, xd0, xmin=None, xmax=None, extra=None):
     if xmin is None:
         xmin = xd0 - 1.0
     if xmax is None:
-        xmax = xd0 + 1.0
+        xmax = xd0 + 1.37             # deliberately not centred on the membrane
+
     return ctx.make(cls, **solver_kwargs(st, xd0, xmin, xmax, extra))
 
 
